@@ -76,6 +76,13 @@ def run(tape: Tape, params: dict) -> Outcome:
         kinds = [KINDS[tape.draw(len(KINDS), "conn.kind")] for _ in range(n)]
         source = ["callable", "max_requests"][tape.weighted([3, 1], "trigger.source")]
         life = ["fast", "slow", "hang", "linger"][tape.weighted([4, 2, 1, 2], "lifespan.shutdown")]
+    if case is None and tape.chance(1, 6, "cfg.graceful.zero") and all(
+            k in ("idle", "partial-head", "long", "stuck", "h2-idle", "h2-stuck", "ws-open") for k in kinds):
+        # no grace period at all: whatever is in progress is cancelled at once (only with connection kinds
+        # that have nothing "finishing inside the grace period")
+        G = 0.0
+        cfg.graceful_timeout = G
+        sim.probe("c15.graceful_timeout_zero")
     t_trigger = 1.0
     short_d = G / 2
     long_d = G + 1.0
